@@ -509,7 +509,17 @@ func runC12Binary(c *fw.Ctx, r *fw.Rng, kind, idx int, res *fw.Result) fw.Result
 			cpus = 0
 		}
 		var br fw.BinResult
-		if cpus > 0 {
+		if k%3 == 1 {
+			// stdout is a one-page pipe drained slowly: the bytes that arrive must not depend on
+			// how fast the destination takes them
+			if cpus > 0 {
+				br = fw.RunBinSlowPipe("taskset", append([]string{"-c", fmt.Sprintf("0-%d", cpus-1), bin}, withT(t)...), stdin, env(p, j), "", 120*time.Second)
+				res.Count("binary_executions_with_restricted_cpus", 1)
+			} else {
+				br = fw.RunBinSlowPipe(bin, withT(t), stdin, env(p, j), "", 120*time.Second)
+			}
+			res.Count("binary_executions_into_slow_pipe", 1)
+		} else if cpus > 0 {
 			if r.Chance(0.5) {
 				p = 0 // GOMAXPROCS left to default to the visible processors
 			}
